@@ -10,35 +10,8 @@ using namespace vf;
 extern "C" const vapi dflt_api;
 static Core *K_;
 static std::string g_case;
-static const int LOCAL[4] = {VP_822_LOCAL, VP_5321_LOCAL, VP_5322_LOCAL, VP_6531_LOCAL};
 
 static Case mkcase(const Bytes &a, int mask) { Case c; c.b("addr", a).i("mask", mask); return c; }
-
-// expected rc of is_<mode>_email by composition; *free_lit: literal between the bounds (0 or an IPADDR code)
-static int compose(Core &K, const Facts &f, int mode, int tld, bool *free_lit, bool *must_reject_lit) {
-    const Consts &C = K.C; vf::K c(K.A);
-    *free_lit = *must_reject_lit = false;
-    if (f.a.empty()) return -c("EEAV_EMAIL_EMPTY");
-    if (!f.has_at || f.D.empty()) return -c("EEAV_DOMAIN_EMPTY");
-    if (f.L.size() > 64) return -c("EEAV_LPART_TOO_LONG");
-    char *p = K.TB.place(f.a, 0);
-    int rc = K.A->part(LOCAL[mode], p, p + f.at, 0, nullptr);
-    if (rc != 0) return rc;
-    const char *d = p + f.at + 1, *e = p + f.a.size();
-    if (f.bracket) {
-        if (f.lit.lower) return 0;
-        if (!f.lit.upper) { *must_reject_lit = true; return -c("EEAV_IPADDR_INVALID"); }
-        *free_lit = true; return 0;
-    }
-    if (mode == 3) return K.A->part(VP_UTF8_DOMAIN, d, e, tld, nullptr);
-    rc = K.A->part(VP_ASCII_DOMAIN, d, e, 0, nullptr);
-    if (rc != 0) return rc;
-    if (!tld) return 0;
-    if (K.A->part(VP_SPECIAL, d, e, 0, nullptr)) return C.tld_type[7];
-    const char *dot = nullptr; for (const char *q = d; q < e; q++) if (*q == '.') dot = q;
-    if (!dot) return -C.E_NOT_FQDN;
-    return K.A->part(VP_TLD, dot + 1, e, 0, nullptr);
-}
 
 static std::optional<Failure> check_one(Run &R, const Bytes &a, int mask) {
     Core &K = *K_; const Consts &C = K.C; vf::K c(K.A);
